@@ -120,7 +120,15 @@ theorem event_excess_loss_rejected (ev : EventSpec d) (hk : ev.kind = .arbitrary
   Or.inr (Or.inr (Or.inr (Or.inr (Or.inr (Or.inl ⟨hk, i.1, i.2, h⟩)))))
 
 theorem event_shares_rejected (ev : EventSpec d) (hk : ev.kind = .rebuild) (h : ¬ sharesSumOK ev) : eventRejected ev :=
-  Or.inr (Or.inr (Or.inr (Or.inr (Or.inr (Or.inr ⟨hk, h⟩)))))
+  Or.inr (Or.inr (Or.inr (Or.inr (Or.inr (Or.inr (Or.inl ⟨hk, h⟩))))))
+
+theorem event_negative_share_rejected (ev : EventSpec d) (hk : ev.kind = .rebuild) (s : Fin d.n) (h : ev.shares s < 0) :
+    eventRejected ev :=
+  Or.inr (Or.inr (Or.inr (Or.inr (Or.inr (Or.inr (Or.inr ⟨hk, Or.inl ⟨s, h⟩⟩))))))
+
+theorem event_nonpositive_factor_rejected (ev : EventSpec d) (hk : ev.kind = .rebuild) (h : ev.factor ≤ 0) :
+    eventRejected ev :=
+  Or.inr (Or.inr (Or.inr (Or.inr (Or.inr (Or.inr (Or.inr ⟨hk, Or.inr h⟩))))))
 
 /-- an event that is not rejected has positive characteristic time, occurrence and duration and a
     non-negative, non-empty impact: the hypotheses of `tracker_init_ok` and of the schedule theorems -/
@@ -128,9 +136,19 @@ theorem event_accepted (ev : EventSpec d) (h : ¬ eventRejected ev) :
     0 < ev.tau ∧ 0 < ev.occ ∧ 0 < ev.dur ∧ (∀ i, 0 ≤ ev.impact i) ∧ (∃ i, ev.impact i ≠ 0) := by
   unfold eventRejected at h
   simp only [not_or, not_exists, not_forall, not_lt] at h
-  obtain ⟨h1, h2, h3, h4, h5, _, _⟩ := h
+  obtain ⟨h1, h2, h3, h4, h5, _, _, _⟩ := h
   refine ⟨Nat.pos_of_ne_zero h1, Nat.pos_of_ne_zero h2, Nat.pos_of_ne_zero h3, fun i => h4 i.1 i.2, ?_⟩
   obtain ⟨r, s, hrs⟩ := h5
   exact ⟨(r, s), hrs⟩
+
+/-- an accepted rebuilding event has non-negative shares that pass the sum test and a positive factor, so the
+    reconstruction demand it creates is non-negative -/
+theorem event_accepted_rebuild (ev : EventSpec d) (h : ¬ eventRejected ev) (hk : ev.kind = .rebuild) :
+    sharesSumOK ev ∧ (∀ s, 0 ≤ ev.shares s) ∧ 0 < ev.factor := by
+  unfold eventRejected at h
+  simp only [not_or, not_and, not_exists, not_lt, not_le, Classical.not_not] at h
+  obtain ⟨_, _, _, _, _, _, h7, h8⟩ := h
+  obtain ⟨h8a, h8b⟩ := h8 hk
+  exact ⟨h7 hk, h8a, h8b⟩
 
 end Boario
